@@ -97,6 +97,9 @@ def dead_code_programs():
     out.append(("dead:never_called", HDR + "def report(v):\n    db.Setting = v\n\ndef unused(a):\n    report(a)\n    report(a + 1)\n\ndb.On = d0.Setting\n"))
     out.append(("dead:if_false", HDR + "def report(v):\n    db.Setting = v\n\nif False:\n    report(1)\n    report(2)\ndb.On = d0.Setting\n"))
     out.append(("dead:if_zero_else", HDR + "def report(v):\n    db.Setting = v\n\nif 1:\n    db.Mode = 1\nelse:\n    report(1)\n    report(2)\ndb.On = d0.Setting\n"))
+    # a second call inside a loop whose test folds to false without being a literal
+    out.append(("dead:while_const_false", HDR + "def report(x):\n    db.Setting = x\n\nreport(d0.Setting)\nwhile 0 > 1:\n    report(7)\n    yield_()\ndb.On = 1\n"))
+    out.append(("dead:while_literal_false", HDR + "def report(x):\n    db.Setting = x\n\nreport(d0.Setting)\nwhile False:\n    report(7)\n    yield_()\ndb.On = 1\n"))
     # inlining requested by a directive line that also carries a negated option
     out.append(("dead:directive_inline", "# pytrapic: no-append-version, inline-functions\n" + HDR + "def report(v):\n    db.Setting = v\n\nreport(d0.Setting + 1)\ndb.On = 1\n"))
     # a library function referenced again from dead top-level code of the main file
